@@ -20,7 +20,7 @@ SCANS = [None] + [f"{m}{n}" for m in "BF" for n in range(10)]
 POLS = [None, "HH", "HV", "VH", "VV"]
 TYPES = ["IMG", "LED", "VOL", "TRL"]
 SCENE = "ALOS2014410740-140829"
-CHARS = "ABCDEFGHIJKLMNOPQRSTUVWXYZ0123456789._- "
+CHARS = "ABCDEFGHIJKLMNOPQRSTUVWXYZ0123456789._- \n"  # incl. a line feed: `$` and `.match` differ from fullmatch exactly there
 
 IN, OUT, UNDECIDED = "in", "out", "undecided"
 
@@ -219,7 +219,7 @@ def run(res, tier, seed):
     res.rule = (
         "all 3600 product ids through open_alos2 (summary attributes, image group names; image shapes rotate over pol x scan) and"
         " through decode_filename with every type x polarisation x scan shape [thorough: all 3600 ids = 1.5M names; quick: 48 ids];"
-        " every date 2014-01-01..2049-12-31 in a scene id; all edit-distance-1 strings (substitution/insertion by 40 characters,"
+        " every date 2014-01-01..2049-12-31 in a scene id; all edit-distance-1 strings (substitution/insertion by 41 characters incl. line feed,"
         " deletion) of 6 base identifiers, classified by a table-driven recogniser. Non-trivial near-miss batches contain at least"
         " one out-of-language string."
     )
